@@ -85,7 +85,9 @@ func execC35(t *testing.T, c C35Case) *Verdict {
 					return
 				}
 				if c.Concurrent > 0 {
+					ran := false
 					long.evictWith(c.Steps[step].Evict, func() {
+						ran = true
 						// A scheduling point inside the cleanup: anything that can run
 						// now runs against the half-way state. (While the exclusive
 						// lock is really held no Run can start: see the guard below.)
@@ -95,6 +97,10 @@ func execC35(t *testing.T, c C35Case) *Verdict {
 						c.Steps[step].apply(disk)
 						stepsDone++
 					})
+					if !ran && v == nil {
+						v = viol("C35/cleanup-not-run", "step %d (%s): EvictWithCleanup returned without having run the cleanup that applies the edit", step, c.Steps[step].Kind)
+						return
+					}
 				} else {
 					c.Steps[step].apply(disk)
 					stepsDone++
